@@ -1,14 +1,274 @@
 import GS.Model.Loader
+import GSProofs.Lemmas.LoaderInv
 /-!
 # C01 — Requestor only delivers and stores verified, selector-reachable data
-(theorems are added below as they are proved; see the end of the file for what is still open)
+
+Property: *every node a requestor hands to its caller, and every block it writes to its local
+store, is genuine content of the DAG named by the request's root and is reachable from that root by
+the requested selector, whatever the responding peer sends.*
+
+Part 1 (this section): the reconciled loader, for **all** operation sequences — any interleaving of
+`IngestResponse` calls with arbitrary metadata / block maps (the adversary), `SetRemoteOnline`,
+`Cleanup`, loads and retries.  The only assumption on the adversary's data is `OpWK`: block maps
+are keyed by the hash recomputed from the bytes (guaranteed by the wire decoder, C12; the
+counterexample `store_needs_wellKeyed` shows that the loader itself does not check it).
+Content `b : Blk` *is* the content whose hash is CID `b`, so "the written / delivered content is
+genuine content of link `c`" reads `b = c`.
 -/
 namespace GS.C01
 open GS.Loader
 
-/-- placeholder obligation while the cluster is being built: the action table of
-    `LinkAction.DidFollowLink` (complete finite table, `decide` is a proof). -/
-theorem didFollow_table : ∀ a : Action, a.didFollow = (a = .present ∨ a = .dupNotSent) := by
-  intro a; cases a <;> simp [Action.didFollow]
+/-- block maps of `ingest` operations are keyed by the true hash (C12) -/
+def OpWK : Op → Prop
+  | .ingest _ bl => WellKeyed bl
+  | _ => True
+
+/-- the link the local traversal is asking for when `o` is executed in state `s`: the argument of
+    a load, the link of the retried attempt, or — for the other operations, which can only let a
+    parked load finish — the link of the parked load -/
+def requested (s : State) : Op → Option Cid
+  | .load c _ => some c
+  | .retry => s.mra.map (·.link)
+  | _ => s.pending.map (·.2)
+
+/-- the load result an operation produced, if any -/
+def result : OpOut → Option Result
+  | .ok w => w
+  | .res (.done r) => some r
+  | _ => none
+
+/-- soundness of one step `s --o--> s'` with output `out` -/
+structure StepSound (s : State) (o : Op) (s' : State) (out : OpOut) : Prop where
+  /-- a store write happens only inside a load, for the requested link `c`, with the content of
+      `c`; it is the only change of the store and the load reports success -/
+  write : ∀ r c b, result out = some r → r.write = some (c, b) →
+    b = c ∧ requested s o = some c ∧ s'.store = (c, b) :: s.store ∧ r.err = none ∧ r.data = some b
+  /-- a load that reports no write leaves the store alone -/
+  nowrite : ∀ r, result out = some r → r.write = none → s'.store = s.store
+  /-- delivered data is the content of the requested link, taken from the local store (`Local`) or
+      written to it in this very step -/
+  data : ∀ r b, result out = some r → r.data = some b →
+    requested s o = some b ∧ r.err = none ∧
+    (r.loc = true → storeGet s.store b = some b) ∧ (r.loc = false → r.write = some (b, b))
+  /-- outside loads the store changes only by the test set-up operation `put` -/
+  quiet : result out = none → s'.store = s.store ∨ ∃ c, o = .put c ∧ s'.store = (c, c) :: s.store
+
+theorem shape_sound {s s' : State} {o : Op} {out : OpOut} {c : Cid} {r : Result}
+    (h : ∀ c b, (c, b) ∈ s.store → b = c) (hreq : requested s o = some c) (hres : result out = some r)
+    (hsh : RunShape s.store c s'.store r) : StepSound s o s' out := by
+  cases hsh with
+  | noWrite hw hs hd =>
+    constructor
+    · intro r' c' b' hr' hw'
+      rw [hres] at hr'; cases hr'; rw [hw] at hw'; cases hw'
+    · intro _ _ _; exact hs
+    · intro r' b hr' hb
+      rw [hres] at hr'; cases hr'
+      obtain ⟨hl, he, hg⟩ := hd b hb
+      have hbc : b = c := h c b (storeGet_mem hg)
+      subst hbc
+      exact ⟨hreq, he, fun _ => hg, fun hf => (by rw [hl] at hf; cases hf)⟩
+    · intro hn; rw [hres] at hn; cases hn
+  | remote b hw hb hs hd he hl =>
+    subst hb
+    constructor
+    · intro r' c' b' hr' hw'
+      rw [hres] at hr'; cases hr'; rw [hw] at hw'; cases hw'
+      exact ⟨rfl, hreq, hs, he, hd⟩
+    · intro r' hr' hw'
+      rw [hres] at hr'; cases hr'; rw [hw] at hw'; cases hw'
+    · intro r' b' hr' hb'
+      rw [hres] at hr'; cases hr'; rw [hd] at hb'; cases hb'
+      exact ⟨hreq, he, (fun hf => by rw [hl] at hf; cases hf), fun _ => hw⟩
+    · intro hn; rw [hres] at hn; cases hn
+
+theorem quiet_sound {s s' : State} {o : Op} {out : OpOut} (hres : result out = none)
+    (hs : s'.store = s.store) : StepSound s o s' out :=
+  ⟨(fun r _ _ hr => by rw [hres] at hr; cases hr), (fun r hr => by rw [hres] at hr; cases hr),
+   (fun r _ hr => by rw [hres] at hr; cases hr), fun _ => Or.inl hs⟩
+
+/-- non-load operations: the state change keeps the invariant and the store; afterwards a parked
+    load may finish -/
+theorem wake_sound {s s1 : State} {o : Op} (h1 : Inv s1) (hst : s1.store = s.store)
+    (hpend : s1.pending = s.pending) (ho : requested s o = s.pending.map (·.2)) :
+    Inv (wake s1).1 ∧ StepSound s o (wake s1).1 (.ok (wake s1).2) := by
+  have hw := wake_spec s1 h1
+  refine ⟨hw.1, ?_⟩
+  generalize wake s1 = w at hw
+  obtain ⟨s2, res⟩ := w
+  cases res with
+  | none => exact quiet_sound rfl (by rw [← hst]; exact hw.2)
+  | some r =>
+    obtain ⟨p, c, hp, hsh⟩ := hw.2
+    refine shape_sound (c := c) (r := r) ?_ ?_ rfl ?_
+    · intro c' b' hm; exact h1.store c' b' (by rw [hst]; exact hm)
+    · rw [ho, ← hpend, hp]; rfl
+    · rw [← hst]; exact hsh
+
+theorem step_sound (s : State) (o : Op) (h : Inv s) (hwk : OpWK o) :
+    Inv (step s o).1 ∧ StepSound s o (step s o).1 (step s o).2 := by
+  cases o with
+  | put c =>
+    refine ⟨⟨h.items, h.last, ?_⟩, ?_⟩
+    · intro c' b' hm
+      simp only [step, List.mem_cons, Prod.mk.injEq] at hm
+      rcases hm with ⟨rfl, rfl⟩ | hm
+      · rfl
+      · exact h.store c' b' hm
+    · exact ⟨(fun r _ _ hr => by simp [step, result] at hr), (fun r hr => by simp [step, result] at hr),
+        (fun r _ hr => by simp [step, result] at hr), fun _ => Or.inr ⟨c, rfl, rfl⟩⟩
+  | online b =>
+    have := wake_sound (s := s) (o := .online b) (h.setOnline b)
+      (by unfold Loader.setOnline; dsimp only; split <;> rfl)
+      (by unfold Loader.setOnline; dsimp only; split <;> rfl) rfl
+    simpa [step] using this
+  | ingest md bl =>
+    have := wake_sound (s := s) (o := .ingest md bl) (h.ingest md bl hwk)
+      (by unfold Loader.ingest; split <;> (try split) <;> rfl)
+      (by unfold Loader.ingest; split <;> (try split) <;> rfl) rfl
+    simpa [step] using this
+  | cleanup =>
+    have := wake_sound (s := s) (o := .cleanup) h.cleanup rfl rfl rfl
+    simpa [step] using this
+  | load c p =>
+    simp only [step]
+    split
+    · exact ⟨h, quiet_sound rfl rfl⟩
+    · have hl := load_spec s p c h
+      refine ⟨hl.1, ?_⟩
+      generalize load s p c = rr at hl
+      obtain ⟨s', out⟩ := rr
+      cases out with
+      | blocked => exact quiet_sound rfl hl.2
+      | done r => exact shape_sound h.store rfl rfl hl.2
+  | retry =>
+    simp only [step]
+    split
+    · exact ⟨h, quiet_sound rfl rfl⟩
+    · have hl := retry_spec s h
+      refine ⟨hl.1, ?_⟩
+      generalize Loader.retry s = rr at hl
+      obtain ⟨s', out⟩ := rr
+      cases out with
+      | blocked => exact quiet_sound rfl hl.2
+      | done r =>
+        rcases hl.2 with ⟨_, hw, hd, hs⟩ | ⟨a, ha, hsh⟩
+        · exact ⟨(fun r' c b hr hw' => by simp [result] at hr; subst hr; rw [hw] at hw'; cases hw'),
+            (fun _ _ _ => hs),
+            (fun r' b hr hb => by simp [result] at hr; subst hr; rw [hd] at hb; cases hb),
+            (fun hn => by simp [result] at hn)⟩
+        · exact shape_sound h.store (by simp [requested, ha]) rfl hsh
+
+
+/-- the steps of a run: (state before, operation, state after, output) -/
+def trace (s : State) : List Op → List (State × Op × State × OpOut)
+  | [] => []
+  | o :: rest => (s, o, (step s o).1, (step s o).2) :: trace (step s o).1 rest
+
+/-- `trace` is the run of the executable model (`runOps` is what the correspondence check runs) -/
+theorem trace_runOps (s : State) (ops : List Op) :
+    (runOps s ops).2 = (trace s ops).map (fun t => t.2.2.2) := by
+  induction ops generalizing s with
+  | nil => rfl
+  | cons o rest ih => simp [runOps, trace, ih]
+
+theorem trace_sound (ops : List Op) (hwk : ∀ o ∈ ops, OpWK o) (s : State) (h : Inv s) :
+    ∀ t ∈ trace s ops, StepSound t.1 t.2.1 t.2.2.1 t.2.2.2 := by
+  induction ops generalizing s with
+  | nil => intro t ht; simp [trace] at ht
+  | cons o rest ih =>
+    intro t ht
+    have hs := step_sound s o h (hwk o (List.mem_cons_self ..))
+    simp only [trace, List.mem_cons] at ht
+    rcases ht with rfl | ht
+    · exact hs.2
+    · exact ih (fun o' ho' => hwk o' (List.mem_cons_of_mem _ ho')) _ hs.1 t ht
+
+/-- **C01.store_sound (loader).**  For every sequence of operations on a fresh loader whose local
+    store is honest — any interleaving of loads, retries, online/offline switches, clean-ups and
+    `IngestResponse` calls with arbitrary (wrong, reordered, extra, duplicated, foreign) metadata and
+    blocks keyed by their hash — every block written to the store is written during a load, under
+    the link `c` that load asks for, and is the content of `c`; nothing else changes the store. -/
+theorem store_sound (ops : List Op) (hwk : ∀ o ∈ ops, OpWK o) :
+    ∀ t ∈ trace {} ops, ∀ r c b, result t.2.2.2 = some r → r.write = some (c, b) →
+      b = c ∧ requested t.1 t.2.1 = some c ∧ t.2.2.1.store = (c, b) :: t.1.store := by
+  intro t ht r c b hr hw
+  have := (trace_sound ops hwk {} Inv.init t ht).write r c b hr hw
+  exact ⟨this.1, this.2.1, this.2.2.1⟩
+
+/-- **C01.deliver_sound (loader).**  Every block a load hands to the traversal is the content of the
+    link the traversal asked for; it was read from the (honest) local store or has just been
+    written there by the same load (and then satisfies `store_sound`). -/
+theorem deliver_sound (ops : List Op) (hwk : ∀ o ∈ ops, OpWK o) :
+    ∀ t ∈ trace {} ops, ∀ r b, result t.2.2.2 = some r → r.data = some b →
+      requested t.1 t.2.1 = some b ∧
+      ((r.loc = true ∧ storeGet t.1.store b = some b) ∨ (r.loc = false ∧ r.write = some (b, b))) := by
+  intro t ht r b hr hd
+  have := (trace_sound ops hwk {} Inv.init t ht).data r b hr hd
+  refine ⟨this.1, ?_⟩
+  cases hl : r.loc with
+  | true => exact Or.inl ⟨rfl, this.2.2.1 hl⟩
+  | false => exact Or.inr ⟨rfl, this.2.2.2 hl⟩
+
+/-- **C01.mismatch_stops, part (a).**  In every run, a load that ends with an error — in particular
+    `RemoteIncorrectResponseError` — has written nothing and leaves the store as it was. -/
+theorem error_writes_nothing (ops : List Op) (hwk : ∀ o ∈ ops, OpWK o) :
+    ∀ t ∈ trace {} ops, ∀ r e, result t.2.2.2 = some r → r.err = some e →
+      r.write = none ∧ t.2.2.1.store = t.1.store := by
+  intro t ht r e hr he
+  have hs := trace_sound ops hwk {} Inv.init t ht
+  cases hw : r.write with
+  | none => exact ⟨rfl, hs.nowrite r hr hw⟩
+  | some cb =>
+    obtain ⟨c, b⟩ := cb
+    have := (hs.write r c b hr hw).2.2.2.1
+    rw [he] at this; cases this
+
+/-- **C01.mismatch_stops, part (b).**  When the replay of earlier loads is finished, the traversal
+    is not below a link the remote did not follow, and the head of the remote queue names a link
+    different from the requested one, the load answers `RemoteIncorrectResponseError` (local link,
+    remote link, path), delivers nothing and writes nothing. -/
+theorem mismatch_stops (s : State) (p : Path) (c : Cid) (head : Item) (tl : List Item)
+    (hq : s.rq.q = head :: tl) (hv : s.verifierDone = true)
+    (hst : (stillOnUnfollowed { s with ver := none } p).2 = false) (hne : head.link ≠ c) :
+    (run s p c).2 = .done { data := none, err := some (.incorrect c head.link p), loc := false } ∧
+    (run s p c).1.store = s.store := by
+  have hw : waitRemote (s.rq.q.length + 1) s = ({ s with ver := none }, .remote) := by
+    simp [waitRemote, hq, hv]
+  have hsu := stillOnUnfollowed_spec { s with ver := none } p
+  unfold run
+  dsimp only
+  rw [hw]
+  dsimp only
+  generalize stillOnUnfollowed { s with ver := none } p = su at hst hsu
+  obtain ⟨s2, still⟩ := su
+  simp only at hst hsu
+  subst hst
+  have hq2 : s2.rq.q = head :: tl := by rw [hsu.2]; exact hq
+  simp [hq2, hne, hsu.1]
+
+/-- non-vacuity: a run with a remote load that writes a block (hypotheses of `store_sound` /
+    `deliver_sound` are met by a non-trivial run) -/
+example :
+    let ops := [Op.online true, .ingest [(1, .present), (2, .missing)] [(1, 1)], .load 1 [], .load 2 [0]]
+    (∀ o ∈ ops, OpWK o) ∧
+    (runOps {} ops).2.map result =
+      [none, none, some { data := some 1, err := none, loc := false, write := some (1, 1) },
+       some { data := none, err := some (.missing 2 [0]), loc := true }] := by
+  refine ⟨?_, by decide⟩
+  intro o ho
+  simp only [List.mem_cons, List.mem_nil_iff, or_false] at ho
+  rcases ho with rfl | rfl | rfl | rfl <;> simp [OpWK, WellKeyed]
+
+/-- non-vacuity of `mismatch_stops`, and a test that the error carries the right links -/
+example :
+    (runOps {} [Op.online true, .ingest [(5, .present)] [(5, 5)], .load 1 []]).2.map result =
+      [none, none, some { data := none, err := some (.incorrect 1 5 []), loc := false }] := by decide
+
+/-- **The well-keyed hypothesis is necessary**: the loader stores whatever bytes the block map holds
+    under the requested link; binding block bytes to their CID is the wire decoder's job (C12). -/
+theorem store_needs_wellKeyed :
+    ∃ ops : List Op, ∃ t ∈ trace {} ops, ∃ r, result t.2.2.2 = some r ∧ r.write = some (1, 7) :=
+  ⟨[Op.online true, .ingest [(1, .present)] [(1, 7)], .load 1 []], by decide⟩
 
 end GS.C01
